@@ -280,9 +280,14 @@ type S struct {
 
 func sbool(b bool) *S { return &S{IsBool: true, B: b} }
 
-// defs collects the schemas referenced by $ref in document order.
+// jsonWriter renders schemas as JSON Schema documents.  defs collects the
+// schemas referenced by $ref in document order.  With shuffle != nil the keys
+// of every schema object are written in a random order (the importer
+// processes the keywords of one phase in document order; validity must not
+// depend on it).
 type jsonWriter struct {
-	defs []*S
+	defs    []*S
+	shuffle func(n int) []int
 }
 
 func (w *jsonWriter) refName(s *S) string {
@@ -304,6 +309,19 @@ func (s *S) JSONText() string {
 	return b.String()
 }
 
+// JSONTextShuffled is JSONText with a random key order in every schema object.
+func (s *S) JSONTextShuffled(perm func(n int) []int) string {
+	w := &jsonWriter{shuffle: perm}
+	var b strings.Builder
+	w.write(&b, s, true)
+	return b.String()
+}
+
+type entry struct {
+	key  string
+	emit func(b *strings.Builder)
+}
+
 func (w *jsonWriter) write(b *strings.Builder, s *S, root bool) {
 	if s.IsBool {
 		if s.B {
@@ -313,51 +331,56 @@ func (w *jsonWriter) write(b *strings.Builder, s *S, root bool) {
 		}
 		return
 	}
-	first := true
-	key := func(k string) {
-		if !first {
-			b.WriteByte(',')
-		}
-		first = false
-		b.WriteString(strconv.Quote(k))
-		b.WriteByte(':')
-	}
+	var ents []entry
+	add := func(k string, f func(b *strings.Builder)) { ents = append(ents, entry{k, f}) }
 	list := func(k string, l []*S) {
-		key(k)
-		b.WriteByte('[')
-		for i, x := range l {
-			if i > 0 {
-				b.WriteByte(',')
+		add(k, func(b *strings.Builder) {
+			b.WriteByte('[')
+			for i, x := range l {
+				if i > 0 {
+					b.WriteByte(',')
+				}
+				w.write(b, x, false)
 			}
-			w.write(b, x, false)
-		}
-		b.WriteByte(']')
+			b.WriteByte(']')
+		})
 	}
 	sub := func(k string, x *S) {
 		if x != nil {
-			key(k)
-			w.write(b, x, false)
+			add(k, func(b *strings.Builder) { w.write(b, x, false) })
 		}
 	}
 	num := func(k string, p *int) {
 		if p != nil {
-			key(k)
-			b.WriteString(strconv.Itoa(*p))
+			add(k, func(b *strings.Builder) { b.WriteString(strconv.Itoa(*p)) })
 		}
 	}
 	half := func(k string, p *int64) {
 		if p != nil {
-			key(k)
-			b.WriteString(halfText(*p))
+			add(k, func(b *strings.Builder) { b.WriteString(halfText(*p)) })
 		}
 	}
-	b.WriteByte('{')
+	props := func(k string, l []PS) {
+		add(k, func(b *strings.Builder) {
+			b.WriteByte('{')
+			for i, p := range l {
+				if i > 0 {
+					b.WriteByte(',')
+				}
+				b.WriteString(strText([]rune(p.Name)))
+				b.WriteByte(':')
+				w.write(b, p.S, false)
+			}
+			b.WriteByte('}')
+		})
+	}
 	// phase 1
 	if s.HasType {
-		key("type")
-		if len(s.Type) == 1 {
-			b.WriteString(strconv.Quote(s.Type[0]))
-		} else {
+		add("type", func(b *strings.Builder) {
+			if len(s.Type) == 1 {
+				b.WriteString(strconv.Quote(s.Type[0]))
+				return
+			}
 			b.WriteByte('[')
 			for i, t := range s.Type {
 				if i > 0 {
@@ -366,49 +389,45 @@ func (w *jsonWriter) write(b *strings.Builder, s *S, root bool) {
 				b.WriteString(strconv.Quote(t))
 			}
 			b.WriteByte(']')
-		}
+		})
 	}
 	if s.HasEnum {
-		key("enum")
-		b.WriteByte('[')
-		for i, x := range s.Enum {
-			if i > 0 {
-				b.WriteByte(',')
+		add("enum", func(b *strings.Builder) {
+			b.WriteByte('[')
+			for i, x := range s.Enum {
+				if i > 0 {
+					b.WriteByte(',')
+				}
+				b.WriteString(x.Text())
 			}
-			b.WriteString(x.Text())
-		}
-		b.WriteByte(']')
+			b.WriteByte(']')
+		})
 	}
 	if s.Const != nil {
-		key("const")
-		b.WriteString(s.Const.Text())
+		add("const", func(b *strings.Builder) { b.WriteString(s.Const.Text()) })
 	}
 	if s.MultipleOf != nil {
-		key("multipleOf")
-		b.WriteString(strconv.FormatInt(*s.MultipleOf, 10))
+		add("multipleOf", func(b *strings.Builder) { b.WriteString(strconv.FormatInt(*s.MultipleOf, 10)) })
 	}
 	half("exclusiveMaximum", s.XMax)
 	half("exclusiveMinimum", s.XMin)
 	num("maxLength", s.MaxLength)
 	num("minLength", s.MinLength)
 	if s.Pattern != nil {
-		key("pattern")
-		b.WriteString(strText([]rune(*s.Pattern)))
+		add("pattern", func(b *strings.Builder) { b.WriteString(strText([]rune(*s.Pattern))) })
 	}
 	num("maxProperties", s.MaxProps)
 	num("minProperties", s.MinProps)
 	num("maxItems", s.MaxItems)
 	num("minItems", s.MinItems)
 	if s.Unique != nil {
-		key("uniqueItems")
-		b.WriteString(strconv.FormatBool(*s.Unique))
+		add("uniqueItems", func(b *strings.Builder) { b.WriteString(strconv.FormatBool(*s.Unique)) })
 	}
 	num("maxContains", s.MaxContains)
 	num("minContains", s.MinContains)
 	// phase 2
 	if s.Ref != nil {
-		key("$ref")
-		b.WriteString(strconv.Quote("#/$defs/" + w.refName(s.Ref)))
+		add("$ref", func(b *strings.Builder) { b.WriteString(strconv.Quote("#/$defs/" + w.refName(s.Ref))) })
 	}
 	if s.HasAllOf {
 		list("allOf", s.AllOf)
@@ -424,30 +443,10 @@ func (w *jsonWriter) write(b *strings.Builder, s *S, root bool) {
 	sub("then", s.Then)
 	sub("else", s.Else)
 	if s.HasProps {
-		key("properties")
-		b.WriteByte('{')
-		for i, p := range s.Props {
-			if i > 0 {
-				b.WriteByte(',')
-			}
-			b.WriteString(strText([]rune(p.Name)))
-			b.WriteByte(':')
-			w.write(b, p.S, false)
-		}
-		b.WriteByte('}')
+		props("properties", s.Props)
 	}
 	if s.HasPProps {
-		key("patternProperties")
-		b.WriteByte('{')
-		for i, p := range s.PProps {
-			if i > 0 {
-				b.WriteByte(',')
-			}
-			b.WriteString(strText([]rune(p.Name)))
-			b.WriteByte(':')
-			w.write(b, p.S, false)
-		}
-		b.WriteByte('}')
+		props("patternProperties", s.PProps)
 	}
 	sub("propertyNames", s.PNames)
 	if s.HasPrefix {
@@ -461,31 +460,50 @@ func (w *jsonWriter) write(b *strings.Builder, s *S, root bool) {
 	sub("items", s.Items)
 	// phase 4
 	if s.HasRequired {
-		key("required")
-		b.WriteByte('[')
-		for i, r := range s.Required {
-			if i > 0 {
-				b.WriteByte(',')
-			}
-			b.WriteString(strText([]rune(r)))
-		}
-		b.WriteByte(']')
-	}
-	if root {
-		// $defs last; definitions may refer to further definitions
-		if len(w.defs) > 0 {
-			key("$defs")
-			b.WriteByte('{')
-			for i := 0; i < len(w.defs); i++ {
+		add("required", func(b *strings.Builder) {
+			b.WriteByte('[')
+			for i, r := range s.Required {
 				if i > 0 {
 					b.WriteByte(',')
 				}
-				b.WriteString(strconv.Quote(fmt.Sprintf("d%d", i)))
-				b.WriteByte(':')
-				w.write(b, w.defs[i], false)
+				b.WriteString(strText([]rune(r)))
 			}
-			b.WriteByte('}')
+			b.WriteByte(']')
+		})
+	}
+	if w.shuffle != nil && len(ents) > 1 {
+		perm := w.shuffle(len(ents))
+		sh := make([]entry, len(ents))
+		for i, j := range perm {
+			sh[i] = ents[j]
 		}
+		ents = sh
+	}
+	b.WriteByte('{')
+	for i, e := range ents {
+		if i > 0 {
+			b.WriteByte(',')
+		}
+		b.WriteString(strconv.Quote(e.key))
+		b.WriteByte(':')
+		e.emit(b)
+	}
+	if root && len(w.defs) > 0 {
+		// $defs last; definitions may refer to further definitions
+		if len(ents) > 0 {
+			b.WriteByte(',')
+		}
+		b.WriteString(strconv.Quote("$defs"))
+		b.WriteString(":{")
+		for i := 0; i < len(w.defs); i++ {
+			if i > 0 {
+				b.WriteByte(',')
+			}
+			b.WriteString(strconv.Quote(fmt.Sprintf("d%d", i)))
+			b.WriteByte(':')
+			w.write(b, w.defs[i], false)
+		}
+		b.WriteByte('}')
 	}
 	b.WriteByte('}')
 }
